@@ -16,10 +16,12 @@ Structural == { <<123>>, <<125>>, <<91>>, <<93>>, <<58>>, <<44>>, <<34>> }
 SigmaFull == Structural \cup
   { <<92>>, <<47>>, <<45>>, <<43>>, <<46>>, <<48>>, <<49>>, <<57>>, <<101>>, <<69>>, <<117>>, <<116>>, <<114>>, <<97>>,
     <<108>>, <<115>>, <<102>>, <<110>>, <<98>>, <<32>>, <<9>>, <<10>>, <<13>>, <<120>>, <<0>>, <<31>>, <<127>>, <<195,169>>,
-    <<60>>, <<38>>, <<226,128,168>> }
+    <<60>>, <<38>>, <<226,128,168>>, <<226,130,169>> }
 SigmaStruct == Structural \cup { <<49>>, <<32>>, <<97>>, <<110>>, <<117>>, <<108>>, <<45>>, <<46>>, <<101>> }
 SigmaTiny == Structural \cup { <<49>>, <<32>>, <<97>> }
-Sigma == CASE SigmaId = "full" -> SigmaFull [] SigmaId = "struct" -> SigmaStruct [] OTHER -> SigmaTiny
+\* whole tokens as symbols: longer texts (trailing commas, missing colons, nested members) within a short word
+SigmaToken == { <<123>>, <<125>>, <<91>>, <<93>>, <<58>>, <<44>>, <<34, 97, 34>>, <<49>>, <<32>>, <<110, 117, 108, 108>>, <<45, 48, 46, 53>> }
+Sigma == CASE SigmaId = "full" -> SigmaFull [] SigmaId = "struct" -> SigmaStruct [] SigmaId = "token" -> SigmaToken [] OTHER -> SigmaTiny
 
 VARIABLES w, sc
 svars == <<w, sc>>
